@@ -72,6 +72,11 @@ def drive(writer, ops):
             if op.get('base'):
                 raise BoomBase()
             raise Boom()
+        elif k == 'ws':
+            if op['on']:
+                writer.enable_whitespace()
+            else:
+                writer.disable_whitespace()
         else:
             raise ValueError('unknown op %r' % (k,))
 
@@ -83,30 +88,42 @@ def drive(writer, ops):
 # the text lines and nowhere else.
 # ---------------------------------------------------------------------------------------
 
-def model(ops):
-    """-> list of items: ('elem', name, {attr: value}, children, exact) | ('comment', s) | ('text', s)"""
+def model(ops, ws0=True):
+    """The tree the document must parse back to.  Items are dicts:
+    {'t': 'elem', name, attrs, children, leaf, wo, wc} | {'t': 'comment', s, w} | {'t': 'text', s, w}
+    where w / wo / wc is the white-space mode in force when the item (or the element's open / close
+    tag) was written: formatting white space may only appear next to something written while
+    white space was enabled."""
     top = []
+    mode = [ws0]
 
     def run(ops, items):
         for op in ops:
             k = op['op']
             if k in ('ctx', 'pushpop'):
-                children = []
-                items.append(('elem', op['name'], {a: v for a, v in attrs_of(op) if v is not None}, children, False))
-                # the close tag is written on unwinding too (tagcontext's finally), so the model
-                # needs no special case: the exception simply propagates through this frame
-                run(op['children'], children)
+                el = {'t': 'elem', 'name': op['name'], 'attrs': {a: v for a, v in attrs_of(op) if v is not None},
+                      'children': [], 'leaf': False, 'wo': mode[0], 'wc': mode[0]}
+                items.append(el)
+                try:
+                    run(op['children'], el['children'])
+                finally:
+                    # the close tag is written on unwinding too (tagcontext's finally), in the mode
+                    # in force at that moment
+                    el['wc'] = mode[0]
             elif k == 'leaf':
                 if op.get('_rejected'):
                     continue
                 data = op.get('data')
-                children = [('text', data)] if data else []
-                items.append(('elem', op['name'], {a: v for a, v in attrs_of(op) if v is not None}, children, True))
+                items.append({'t': 'elem', 'name': op['name'], 'attrs': {a: v for a, v in attrs_of(op) if v is not None},
+                              'children': [{'t': 'text', 's': data, 'w': False}] if data else [], 'leaf': True,
+                              'wo': mode[0], 'wc': mode[0]})
             elif k == 'comment':
-                items.append(('comment', ' %s ' % op['text']))
+                items.append({'t': 'comment', 's': ' %s ' % op['text'], 'w': mode[0]})
             elif k == 'text':
                 if not op.get('_rejected'):
-                    items.append(('text', op['text']))
+                    items.append({'t': 'text', 's': op['text'], 'w': mode[0]})
+            elif k == 'ws':
+                mode[0] = bool(op['on'])
             elif k == 'catch':
                 try:
                     run(op['children'], items)
@@ -123,49 +140,66 @@ def model(ops):
 FMT = r'[ \t\n]*'
 
 
-def compare(got, want, exact, path):
-    """got: parsed items (adjacent text merged); want: model items.  Raises Mismatch."""
+def compare(got, want, parent, path):
+    """got: parsed items (adjacent text merged); want: model items; parent: the model element
+    they belong to (None at top level).  Raises Mismatch."""
     import re
     gi = 0
-    texts = []
+    pending = []          # text items since the last non-text item
 
-    def flush_texts(upto_item):
+    def start_mode(item):
+        return item['wo'] if item['t'] == 'elem' else item['w']
+
+    def end_mode(item):
+        return item['wc'] if item['t'] == 'elem' else item['w']
+
+    def flush(prev, nxt):
         nonlocal gi
         chunk = ''
         if gi < len(got) and got[gi][0] == 'text':
             chunk = got[gi][1]
             gi += 1
-        if exact:
+        texts = [t['s'] for t in pending]
+        leaf = parent is not None and parent['leaf']
+        # white space written by the writer itself can only sit next to something that was
+        # written while white space was enabled
+        before = (end_mode(prev) if prev is not None else (parent['wo'] if parent is not None else True))
+        after = (start_mode(nxt) if nxt is not None else (parent['wc'] if parent is not None else True))
+        fmt_possible = (not leaf) and (before or after or any(t['w'] for t in pending))
+        if not fmt_possible:
             if chunk != ''.join(texts):
                 raise Mismatch('X2 element text differs in <%s>: got %r want %r' % (path, chunk, ''.join(texts)))
         else:
             pat = r'\A' + FMT + FMT.join(re.escape(t) for t in texts) + FMT + r'\Z'
             if re.match(pat, chunk) is None:
                 raise Mismatch('X2 text lines differ in <%s>: got %r want lines %r' % (path, chunk, texts))
-        del texts[:]
+        del pending[:]
 
+    prev = None
     for w in want:
-        if w[0] == 'text':
-            texts.append(w[1])
+        if w['t'] == 'text':
+            pending.append(w)
             continue
-        flush_texts(w)
+        flush(prev, w)
         if gi >= len(got):
-            raise Mismatch('X2 item missing from the parsed document in <%s>: %s %r' % (path, w[0], w[1]))
+            raise Mismatch('X2 item missing from the parsed document in <%s>: %s %r' % (path, w['t'], w.get('name', w.get('s'))))
         g = got[gi]
         gi += 1
-        if g[0] != w[0]:
-            raise Mismatch('X2 item kind differs in <%s>: expected %s %r, parsed %s %r' % (path, w[0], w[1], g[0], g[1]))
-        if w[0] == 'comment':
-            if g[1] != w[1]:
-                raise Mismatch('X2 comment differs in <%s>: got %r want %r' % (path, g[1], w[1]))
+        if g[0] != w['t']:
+            raise Mismatch('X2 item kind differs in <%s>: expected %s %r, parsed %s %r' % (
+                path, w['t'], w.get('name', w.get('s')), g[0], g[1]))
+        if w['t'] == 'comment':
+            if g[1] != w['s']:
+                raise Mismatch('X2 comment differs in <%s>: got %r want %r' % (path, g[1], w['s']))
         else:
-            if g[1] != w[1]:
-                raise Mismatch('X2 element name differs in <%s>: got %r want %r' % (path, g[1], w[1]))
+            if g[1] != w['name']:
+                raise Mismatch('X2 element name differs in <%s>: got %r want %r' % (path, g[1], w['name']))
             gattrs = dict(g[2])
-            if len(gattrs) != len(g[2]) or gattrs != w[2]:
-                raise Mismatch('X2 attributes differ in <%s/%s>: got %r want %r' % (path, w[1], g[2], w[2]))
-            compare(g[3], w[3], w[4], path + '/' + w[1])
-    flush_texts(None)
+            if len(gattrs) != len(g[2]) or gattrs != w['attrs']:
+                raise Mismatch('X2 attributes differ in <%s/%s>: got %r want %r' % (path, w['name'], g[2], w['attrs']))
+            compare(g[3], w['children'], w, path + '/' + w['name'])
+        prev = w
+    flush(prev, None)
     if gi != len(got):
         raise Mismatch('X2 unexpected extra content in <%s>: %r' % (path, got[gi:][:2]))
 
@@ -236,11 +270,11 @@ def check_document(doc):
     except expat.ExpatError as e:
         raise Mismatch('X1 document is not well-formed: %s\n%s' % (e, xml[:600]))
     try:
-        want = model(doc['ops'])
+        want = model(doc['ops'], doc['whitespace'])
     except (Boom, BoomBase):
         raise Mismatch('harness: model let Boom escape')
     # outside the root element expat reports no character data
-    compare(got, [it for it in want if it[0] != 'text'], True, '')
+    compare(got, [it for it in want if it['t'] != 'text'], None, '')
     return {'boom_escaped': boom_escaped, 'xml_len': len(xml), 'wrapped': any_wrapped(xml)}
 
 
@@ -258,6 +292,8 @@ def skeleton(ops):
             out.append((k[0] if k != 'catch' else 'K', len(op.get('attrs', [])), skeleton(op['children'])))
         elif k == 'leaf':
             out.append(('l', len(op.get('attrs', [])), op.get('data') is not None))
+        elif k == 'ws':
+            out.append(('w', op['on']))
         else:
             out.append((k[0],))
     return tuple(out)
@@ -276,9 +312,10 @@ def has_raise(ops):
 
 SPECIALS = ['<', '>', '&', '"', "'", '\n', '\t', ' ', ';', '#', ']', '=', '-', '/', '!', '?',
             '&amp;', ']]>', '&#10;', '<!--', '-->', '<![CDATA[', '\x85', '\xa0', '\ufffd', '\u2028',
-            '\U0001f600', '\ud7ff', '\ue000', '\x7f', '\U0010ffff', '\ufffd', '%s', '%(a)s', '{}', '\\']
-NAME_START = list('abcxyzABCZ_') + ['\xe9', '\u03bb', '\u4e2d']
-NAME_REST = list('abcxyz09-._') + ['\xe9', '\u4e2d']
+            '\U0001f600', '\ud7ff', '\ue000', '\x7f', '\U0010ffff', '\ufffd', '%s', '%(a)s', '{}', '\\',
+            'e\u0301', '\u212b', '\u0958', 'A\u030a', '\u1100\u1161', '\u2126', '\u2029', '\u0344']
+NAME_START = list('abcxyzABCZ_') + ['\xe9', '\u03bb', '\u4e2d', '\u212b']
+NAME_REST = list('abcxyz09-._') + ['\xe9', '\u4e2d', '\u0301']
 
 
 class Genome(object):
@@ -354,6 +391,8 @@ class Genome(object):
     def ops(self, raise_ok, depth, maxn=5):
         out = []
         for _ in range(self.below(maxn + 1)):
+            if self.below(16) == 15:
+                out.append({'op': 'ws', 'on': self.below(2) == 1})      # white-space mode switched mid-document
             sel = self.below(10 if depth > 0 else 6)
             if sel in (0, 5):
                 d = self.below(4)
